@@ -1,64 +1,34 @@
 // Copyright 2013 The Go Authors. All rights reserved.
 // Use of this source code is governed by a BSD-style
 // license that can be found in the LICENSE file.
+//
+// Derived from golang.org/x/tools/go/ssa/interp (v0.29.0). This fork executes SSA
+// symbolically: values may be SMT terms, branches on symbolic conditions are path
+// decisions or merged regions, and nondeterminism (inputs, randomness, map order,
+// goroutine schedules) is controlled by the exploration engine.
 
-// Package ssa/interp defines an interpreter for the SSA
-// representation of Go programs.
-//
-// This interpreter is provided as an adjunct for testing the SSA
-// construction algorithm.  Its purpose is to provide a minimal
-// metacircular implementation of the dynamic semantics of each SSA
-// instruction.  It is not, and will never be, a production-quality Go
-// interpreter.
-//
-// The following is a partial list of Go features that are currently
-// unsupported or incomplete in the interpreter.
-//
-// * Unsafe operations, including all uses of unsafe.Pointer, are
-// impossible to support given the "boxed" value representation we
-// have chosen.
-//
-// * The reflect package is only partially implemented.
-//
-// * The "testing" package is no longer supported because it
-// depends on low-level details that change too often.
-//
-// * "sync/atomic" operations are not atomic due to the "boxed" value
-// representation: it is not possible to read, modify and write an
-// interface value atomically. As a consequence, Mutexes are currently
-// broken.
-//
-// * recover is only partially implemented.  Also, the interpreter
-// makes no attempt to distinguish target panics from interpreter
-// crashes.
-//
-// * the sizes of the int, uint and uintptr types in the target
-// program are assumed to be the same as those of the interpreter
-// itself.
-//
-// * all values occupy space, even those of types defined by the spec
-// to have zero size, e.g. struct{}.  This can cause asymptotic
-// performance degradation.
-//
-// * os.Exit is implemented using panic, causing deferred functions to
-// run.
-package interp // import "golang.org/x/tools/go/ssa/interp"
+package interp
 
 import (
 	"fmt"
 	"go/token"
 	"go/types"
-	"log"
-	"os"
-	"reflect"
 	"runtime"
 	"slices"
-	"sync/atomic"
-	_ "unsafe"
+	"strings"
 
 	"golang.org/x/tools/go/ssa"
-	"golang.org/x/tools/internal/typeparams"
+
+	"gosym/sym"
 )
+
+// mustDeref returns the element type of a pointer type.
+func mustDeref(t types.Type) types.Type {
+	if p, ok := t.Underlying().(*types.Pointer); ok {
+		return p.Elem()
+	}
+	panic(fmt.Sprintf("mustDeref: %s is not a pointer", t))
+}
 
 type continuation int
 
@@ -68,28 +38,85 @@ const (
 	kJump
 )
 
-// Mode is a bitmask of options affecting the interpreter.
-type Mode uint
+var tString = types.Typ[types.String]
 
-const (
-	DisableRecover Mode = 1 << iota // Disable recover() in target programs; show interpreter crash instead.
-	EnableTracing                   // Print a trace of all instructions as they are interpreted.
-)
+// Stats are per-interpreter exploration counters.
+type Stats struct {
+	FeasQueries   int
+	AssertQueries int
+	CacheHits     int
+	UnknownFeas   int
+	Merges        int
+	MergeAborts   int
+	Instrs        int64
+}
 
-type methodSet map[string]*ssa.Function
-
-// State shared between all interpreted goroutines.
+// State of one exploration worker (one harness at a time).
 type interpreter struct {
-	osArgs             []value                // the value of os.Args
-	prog               *ssa.Program           // the SSA program
-	globals            map[*ssa.Global]*value // addresses of global variables (immutable)
-	mode               Mode                   // interpreter options
-	reflectPackage     *ssa.Package           // the fake reflect package
-	errorMethods       methodSet              // the method set of reflect.error, which implements the error interface.
-	rtypeMethods       methodSet              // the method set of rtype, which implements the reflect.Type interface.
-	runtimeErrorString types.Type             // the runtime.errorString type
-	sizes              types.Sizes            // the effective type-sizing function
-	goroutines         int32                  // atomically updated
+	prog               *ssa.Program
+	globals            map[*ssa.Global]*value // addresses of global variables
+	runtimeErrorString types.Type
+	sizes              types.Sizes
+
+	ctx    *sym.Ctx
+	solver *sym.Solver
+	cfg    Config
+	Debug  bool
+	Trace  bool
+
+	// per-path state
+	pc          []*sym.Term
+	prefix      []Decision
+	dpos        int
+	decs        []Decision
+	pending     [][]Decision
+	tape        []tapeVar
+	trail       []trailEnt
+	trailOn     bool
+	specDepth   int
+	specGuard   []*sym.Term
+	sideConds   []*sym.Term
+	steps       int64
+	sawUnknown  bool
+	reached     []string
+	obs         []obsEnt
+	allowExit   bool
+	nondetCount int
+	curFrame    *frame
+	concCap     int
+
+	shiftCountSigned bool
+
+	// solver-side caches (persist across paths)
+	qcache    map[string]sym.Result
+	varsMemo  map[int]map[int]struct{}
+	axiomSeen map[string]bool
+	axioms    []*sym.Term
+	lnArgs    []*sym.Term
+	expArgs   []*sym.Term
+
+	// threads
+	threads      []*thread
+	cur          *thread
+	killing      bool
+	pendingAbort interface{}
+	hostDone     chan struct{}
+	wgs          map[*value]*wgState
+	mus          map[*value]*muState
+	raceCells    map[*value]*raceCell
+	Races        []Race
+
+	mapOrderExplore bool
+
+	// results
+	Stats     Stats
+	findings  []Finding
+	harness   string
+	funcsHit  map[*ssa.Function]int64
+	overrides map[string]externalFn
+
+	pdom  map[*ssa.Function]*pdomInfo
+	onces map[*value]bool
 }
 
 type deferred struct {
@@ -111,13 +138,15 @@ type frame struct {
 	panicking        bool
 	panic            interface{}
 	phitemps         []value // temporaries for parallel phi assignment
+	curInstr         ssa.Instruction
+	stopAt           *ssa.BasicBlock // speculative execution: stop when this block is reached
+	stopped          bool
+	skipPhis         bool
 }
 
 func (fr *frame) get(key ssa.Value) value {
 	switch key := key.(type) {
 	case nil:
-		// Hack; simplifies handling of optional attributes
-		// such as ssa.Slice.{Low,High}.
 		return nil
 	case *ssa.Function, *ssa.Builtin:
 		return key
@@ -135,36 +164,26 @@ func (fr *frame) get(key ssa.Value) value {
 }
 
 // runDefer runs a deferred call d.
-// It always returns normally, but may set or clear fr.panic.
 func (fr *frame) runDefer(d *deferred) {
-	if fr.i.mode&EnableTracing != 0 {
-		fmt.Fprintf(os.Stderr, "%s: invoking deferred function call\n",
-			fr.i.prog.Fset.Position(d.instr.Pos()))
-	}
 	var ok bool
 	defer func() {
 		if !ok {
-			// Deferred call created a new state of panic.
+			r := recover()
+			if isInternal(r) {
+				panic(r)
+			}
 			fr.panicking = true
-			fr.panic = recover()
+			fr.panic = r
 		}
 	}()
 	call(fr.i, fr, d.instr.Pos(), d.fn, d.args)
 	ok = true
 }
 
-// runDefers executes fr's deferred function calls in LIFO order.
-//
-// On entry, fr.panicking indicates a state of panic; if
-// true, fr.panic contains the panic value.
-//
-// On completion, if a deferred call started a panic, or if no
-// deferred call recovered from a previous state of panic, then
-// runDefers itself panics after the last deferred call has run.
-//
-// If there was no initial state of panic, or it was recovered from,
-// runDefers returns normally.
 func (fr *frame) runDefers() {
+	if fr.i.specDepth > 0 && fr.defers != nil {
+		fr.i.mergeAbort("deferred calls inside a merged region")
+	}
 	for d := fr.defers; d != nil; d = d.tail {
 		fr.runDefer(d)
 	}
@@ -174,35 +193,35 @@ func (fr *frame) runDefers() {
 	}
 }
 
-// lookupMethod returns the method set for type typ, which may be one
-// of the interpreter's fake types.
 func lookupMethod(i *interpreter, typ types.Type, meth *types.Func) *ssa.Function {
-	switch typ {
-	case rtypeType:
-		return i.rtypeMethods[meth.Id()]
-	case errorType:
-		return i.errorMethods[meth.Id()]
-	}
 	return i.prog.LookupMethod(typ, meth.Pkg(), meth.Name())
 }
 
-// visitInstr interprets a single ssa.Instruction within the activation
-// record frame.  It returns a continuation value indicating where to
-// read the next instruction from.
+// visitInstr interprets a single ssa.Instruction within the activation record frame.
 func visitInstr(fr *frame, instr ssa.Instruction) continuation {
+	i := fr.i
+	fr.curInstr = instr
+	i.steps++
+	if i.steps > i.cfg.MaxSteps {
+		panic(pathAbort{kind: abBudget, msg: fmt.Sprintf("step budget %d exceeded%s", i.cfg.MaxSteps, i.where())})
+	}
 	switch instr := instr.(type) {
 	case *ssa.DebugRef:
 		// no-op
 
 	case *ssa.UnOp:
-		fr.env[instr] = unop(instr, fr.get(instr.X))
+		fr.env[instr] = i.unop(instr, fr.get(instr.X))
 
 	case *ssa.BinOp:
-		fr.env[instr] = binop(instr.Op, instr.X.Type(), fr.get(instr.X), fr.get(instr.Y))
+		if instr.Op == token.SHL || instr.Op == token.SHR {
+			_, i.shiftCountSigned, _ = intInfo(instr.Y.Type())
+		}
+		fr.env[instr] = i.binop(instr.Op, instr.X.Type(), fr.get(instr.X), fr.get(instr.Y))
 
 	case *ssa.Call:
 		fn, args := prepareCall(fr, &instr.Call)
 		fr.env[instr] = call(fr.i, fr, instr.Pos(), fn, args)
+		i.curFrame = fr
 
 	case *ssa.ChangeInterface:
 		fr.env[instr] = fr.get(instr.X)
@@ -211,10 +230,10 @@ func visitInstr(fr *frame, instr ssa.Instruction) continuation {
 		fr.env[instr] = fr.get(instr.X) // (can't fail)
 
 	case *ssa.Convert:
-		fr.env[instr] = conv(instr.Type(), instr.X.Type(), fr.get(instr.X))
+		fr.env[instr] = i.conv(instr.Type(), instr.X.Type(), fr.get(instr.X))
 
 	case *ssa.SliceToArrayPointer:
-		fr.env[instr] = sliceToArrayPointer(instr.Type(), instr.X.Type(), fr.get(instr.X))
+		fr.env[instr] = i.sliceToArrayPointer(instr.Type(), instr.X.Type(), fr.get(instr.X))
 
 	case *ssa.MakeInterface:
 		fr.env[instr] = iface{t: instr.X.Type(), v: fr.get(instr.X)}
@@ -223,7 +242,7 @@ func visitInstr(fr *frame, instr ssa.Instruction) continuation {
 		fr.env[instr] = fr.get(instr.Tuple).(tuple)[instr.Index]
 
 	case *ssa.Slice:
-		fr.env[instr] = slice(fr.get(instr.X), fr.get(instr.Low), fr.get(instr.High), fr.get(instr.Max))
+		fr.env[instr] = i.slice(fr.get(instr.X), fr.get(instr.Low), fr.get(instr.High), fr.get(instr.Max))
 
 	case *ssa.Return:
 		switch len(instr.Results) {
@@ -242,29 +261,28 @@ func visitInstr(fr *frame, instr ssa.Instruction) continuation {
 
 	case *ssa.RunDefers:
 		fr.runDefers()
+		i.curFrame = fr
 
 	case *ssa.Panic:
 		panic(targetPanic{fr.get(instr.X)})
 
 	case *ssa.Send:
-		fr.get(instr.Chan).(chan value) <- fr.get(instr.X)
+		i.chanSend(fr.get(instr.Chan).(*channel), fr.get(instr.X))
 
 	case *ssa.Store:
-		store(typeparams.MustDeref(instr.Addr.Type()), fr.get(instr.Addr).(*value), fr.get(instr.Val))
+		i.store(mustDeref(instr.Addr.Type()), fr.get(instr.Addr).(*value), fr.get(instr.Val))
 
 	case *ssa.If:
-		succ := 1
-		if fr.get(instr.Cond).(bool) {
-			succ = 0
-		}
-		fr.prevBlock, fr.block = fr.block, fr.block.Succs[succ]
-		return kJump
+		return i.visitIf(fr, instr)
 
 	case *ssa.Jump:
 		fr.prevBlock, fr.block = fr.block, fr.block.Succs[0]
 		return kJump
 
 	case *ssa.Defer:
+		if i.specDepth > 0 {
+			i.mergeAbort("defer inside a merged region")
+		}
 		fn, args := prepareCall(fr, &instr.Call)
 		defers := &fr.defers
 		if into := fr.get(instr.DeferStack); into != nil {
@@ -279,53 +297,61 @@ func visitInstr(fr *frame, instr ssa.Instruction) continuation {
 
 	case *ssa.Go:
 		fn, args := prepareCall(fr, &instr.Call)
-		atomic.AddInt32(&fr.i.goroutines, 1)
-		go func() {
-			call(fr.i, nil, instr.Pos(), fn, args)
-			atomic.AddInt32(&fr.i.goroutines, -1)
-		}()
+		i.spawn(instr.Pos(), fn, args)
 
 	case *ssa.MakeChan:
-		fr.env[instr] = make(chan value, asInt64(fr.get(instr.Size)))
+		n := i.needInt(fr.get(instr.Size), "channel capacity")
+		fr.env[instr] = i.makeChan(int(n))
 
 	case *ssa.Alloc:
 		var addr *value
 		if instr.Heap {
-			// new
 			addr = new(value)
 			fr.env[instr] = addr
+			*addr = zero(mustDeref(instr.Type()))
 		} else {
-			// local
 			addr = fr.env[instr].(*value)
+			i.setCell(addr, zero(mustDeref(instr.Type())))
 		}
-		*addr = zero(typeparams.MustDeref(instr.Type()))
 
 	case *ssa.MakeSlice:
-		slice := make([]value, asInt64(fr.get(instr.Cap)))
-		tElt := instr.Type().Underlying().(*types.Slice).Elem()
-		for i := range slice {
-			slice[i] = zero(tElt)
+		ln := i.needInt(fr.get(instr.Len), "make: len")
+		cp := i.needInt(fr.get(instr.Cap), "make: cap")
+		if ln < 0 {
+			panic(targetPanic{i.rtErr("makeslice: len out of range")})
 		}
-		fr.env[instr] = slice[:asInt64(fr.get(instr.Len))]
+		if cp < ln {
+			panic(targetPanic{i.rtErr("makeslice: cap out of range")})
+		}
+		if cp > maxAlloc {
+			panic(targetPanic{i.rtErr(fmt.Sprintf("makeslice: len out of range (or out of memory): %d elements", cp))})
+		}
+		slice := make([]value, cp)
+		tElt := instr.Type().Underlying().(*types.Slice).Elem()
+		for k := range slice {
+			slice[k] = zero(tElt)
+		}
+		fr.env[instr] = slice[:ln]
 
 	case *ssa.MakeMap:
-		var reserve int64
 		if instr.Reserve != nil {
-			reserve = asInt64(fr.get(instr.Reserve))
+			i.needInt(fr.get(instr.Reserve), "make: map size")
 		}
-		if !fitsInt(reserve, fr.i.sizes) {
-			panic(fmt.Sprintf("ssa.MakeMap.Reserve value %d does not fit in int", reserve))
-		}
-		fr.env[instr] = makeMap(instr.Type().Underlying().(*types.Map).Key(), reserve)
+		mt := instr.Type().Underlying().(*types.Map)
+		fr.env[instr] = newOmap(mt.Key(), mt.Elem())
 
 	case *ssa.Range:
-		fr.env[instr] = rangeIter(fr.get(instr.X), instr.X.Type())
+		fr.env[instr] = i.rangeIter(fr.get(instr.X), instr.X.Type())
 
 	case *ssa.Next:
 		fr.env[instr] = fr.get(instr.Iter).(iter).next()
 
 	case *ssa.FieldAddr:
-		fr.env[instr] = &(*fr.get(instr.X).(*value)).(structure)[instr.Field]
+		p := fr.get(instr.X).(*value)
+		if p == nil {
+			panic(targetPanic{i.rtErr("invalid memory address or nil pointer dereference")})
+		}
+		fr.env[instr] = &(*p).(structure)[instr.Field]
 
 	case *ssa.Field:
 		fr.env[instr] = fr.get(instr.X).(structure)[instr.Field]
@@ -335,9 +361,15 @@ func visitInstr(fr *frame, instr ssa.Instruction) continuation {
 		idx := fr.get(instr.Index)
 		switch x := x.(type) {
 		case []value:
-			fr.env[instr] = &x[asInt64(idx)]
+			k := i.indexFor(idx, instr.Index.Type(), len(x))
+			fr.env[instr] = &x[k]
 		case *value: // *array
-			fr.env[instr] = &(*x).(array)[asInt64(idx)]
+			if x == nil {
+				panic(targetPanic{i.rtErr("invalid memory address or nil pointer dereference")})
+			}
+			a := (*x).(array)
+			k := i.indexFor(idx, instr.Index.Type(), len(a))
+			fr.env[instr] = &a[k]
 		default:
 			panic(fmt.Sprintf("unexpected x type in IndexAddr: %T", x))
 		}
@@ -345,31 +377,27 @@ func visitInstr(fr *frame, instr ssa.Instruction) continuation {
 	case *ssa.Index:
 		x := fr.get(instr.X)
 		idx := fr.get(instr.Index)
-
 		switch x := x.(type) {
 		case array:
-			fr.env[instr] = x[asInt64(idx)]
+			fr.env[instr] = i.indexLoad([]value(x), idx, instr.Index.Type())
 		case string:
-			fr.env[instr] = x[asInt64(idx)]
+			if k, ok := idx.(int); ok && k >= 0 && k < len(x) {
+				fr.env[instr] = x[k]
+			} else {
+				fr.env[instr] = i.indexLoad(strBytes(x), idx, instr.Index.Type())
+			}
+		case sstr:
+			fr.env[instr] = i.indexLoad([]value(x), idx, instr.Index.Type())
 		default:
 			panic(fmt.Sprintf("unexpected x type in Index: %T", x))
 		}
 
 	case *ssa.Lookup:
-		fr.env[instr] = lookup(instr, fr.get(instr.X), fr.get(instr.Index))
+		fr.env[instr] = i.lookup(instr, fr.get(instr.X), fr.get(instr.Index))
 
 	case *ssa.MapUpdate:
-		m := fr.get(instr.Map)
-		key := fr.get(instr.Key)
-		v := fr.get(instr.Value)
-		switch m := m.(type) {
-		case map[value]value:
-			m[key] = v
-		case *hashmap:
-			m.insert(key.(hashable), v)
-		default:
-			panic(fmt.Sprintf("illegal map type: %T", m))
-		}
+		m := fr.get(instr.Map).(*omap)
+		i.mapUpdate(m, fr.get(instr.Key), fr.get(instr.Value))
 
 	case *ssa.TypeAssert:
 		fr.env[instr] = typeAssert(fr.i, instr, fr.get(instr.X).(iface))
@@ -382,78 +410,87 @@ func visitInstr(fr *frame, instr ssa.Instruction) continuation {
 		fr.env[instr] = &closure{instr.Fn.(*ssa.Function), bindings}
 
 	case *ssa.Phi:
-		log.Fatal("unreachable") // phis are processed at block entry
+		panic("unreachable: phis are processed at block entry")
 
 	case *ssa.Select:
-		var cases []reflect.SelectCase
-		if !instr.Blocking {
-			cases = append(cases, reflect.SelectCase{
-				Dir: reflect.SelectDefault,
-			})
-		}
-		for _, state := range instr.States {
-			var dir reflect.SelectDir
-			if state.Dir == types.RecvOnly {
-				dir = reflect.SelectRecv
-			} else {
-				dir = reflect.SelectSend
-			}
-			var send reflect.Value
-			if state.Send != nil {
-				send = reflect.ValueOf(fr.get(state.Send))
-			}
-			cases = append(cases, reflect.SelectCase{
-				Dir:  dir,
-				Chan: reflect.ValueOf(fr.get(state.Chan)),
-				Send: send,
-			})
-		}
-		chosen, recv, recvOk := reflect.Select(cases)
-		if !instr.Blocking {
-			chosen-- // default case should have index -1.
-		}
-		r := tuple{chosen, recvOk}
-		for i, st := range instr.States {
-			if st.Dir == types.RecvOnly {
-				var v value
-				if i == chosen && recvOk {
-					// No need to copy since send makes an unaliased copy.
-					v = recv.Interface().(value)
-				} else {
-					v = zero(st.Chan.Type().Underlying().(*types.Chan).Elem())
-				}
-				r = append(r, v)
-			}
-		}
-		fr.env[instr] = r
+		i.unsupported("select statement")
 
 	default:
 		panic(fmt.Sprintf("unexpected instruction: %T", instr))
 	}
-
-	// if val, ok := instr.(ssa.Value); ok {
-	// 	fmt.Println(toString(fr.env[val])) // debugging
-	// }
-
 	return kNext
 }
 
-// prepareCall determines the function value and argument values for a
-// function call in a Call, Go or Defer instruction, performing
-// interface method lookup if needed.
+const maxAlloc = 1 << 22 // elements; larger allocations are reported as an out-of-memory class panic
+
+// needInt demands a concrete integer (enumerating feasible values of a symbolic one).
+func (i *interpreter) needInt(v value, what string) int64 {
+	if t, ok := v.(*sym.Term); ok {
+		return i.concretize(t, true, what)
+	}
+	return asInt64(v)
+}
+
+// indexFor checks bounds (a Go panic when violated) and returns a concrete index; a
+// symbolic index is enumerated over its feasible values.
+func (i *interpreter) indexFor(idx value, t types.Type, n int) int {
+	if it, ok := idx.(*sym.Term); ok && !it.IsConst() {
+		w := int(it.Sort.W)
+		// unsigned comparison covers negative values too
+		inb := i.ctx.BvUlt(it, i.ctx.BVC(w, uint64(n)))
+		if !i.decide(inb) {
+			panic(targetPanic{i.rtErr(fmt.Sprintf("index out of range [symbolic] with length %d", n))})
+		}
+		return int(i.concretize(it, false, "index"))
+	}
+	k := asInt64(idx)
+	if _, signed, _ := intInfo(t); !signed && k < 0 {
+		k = int64(n) // huge unsigned
+	}
+	if k < 0 || k >= int64(n) {
+		panic(targetPanic{i.rtErr(fmt.Sprintf("index out of range [%d] with length %d", k, n))})
+	}
+	return int(k)
+}
+
+// indexLoad reads xs[idx]; a symbolic index over scalar elements becomes an ite chain.
+func (i *interpreter) indexLoad(xs []value, idx value, t types.Type) value {
+	it, ok := idx.(*sym.Term)
+	if !ok || it.IsConst() {
+		return copyVal(xs[i.indexFor(idx, t, len(xs))])
+	}
+	w := int(it.Sort.W)
+	inb := i.ctx.BvUlt(it, i.ctx.BVC(w, uint64(len(xs))))
+	if i.specDepth > 0 {
+		i.sideCond(i.ctx.Not(inb))
+	} else if !i.decide(inb) {
+		panic(targetPanic{i.rtErr(fmt.Sprintf("index out of range [symbolic] with length %d", len(xs)))})
+	}
+	if len(xs) == 0 {
+		i.unsupported("index into empty sequence")
+	}
+	res := copyVal(xs[len(xs)-1])
+	for k := len(xs) - 2; k >= 0; k-- {
+		r, good := i.iteVal(i.ctx.Eq(it, i.ctx.BVC(w, uint64(k))), copyVal(xs[k]), res)
+		if !good {
+			return copyVal(xs[i.indexFor(idx, t, len(xs))])
+		}
+		res = r
+	}
+	return res
+}
+
+// prepareCall determines the function value and argument values for a call.
 func prepareCall(fr *frame, call *ssa.CallCommon) (fn value, args []value) {
 	v := fr.get(call.Value)
 	if call.Method == nil {
-		// Function call.
 		fn = v
 	} else {
-		// Interface method invocation.
 		recv := v.(iface)
 		if recv.t == nil {
-			panic("method invoked on nil interface")
+			panic(targetPanic{fr.i.rtErr("invalid memory address or nil pointer dereference (method call on nil interface)")})
 		}
 		if f := lookupMethod(fr.i, recv.t, call.Method); f == nil {
-			// Unreachable in well-typed programs.
 			panic(fmt.Sprintf("method set for dynamic type %v does not contain %s", recv.t, call.Method))
 		} else {
 			fn = f
@@ -466,45 +503,28 @@ func prepareCall(fr *frame, call *ssa.CallCommon) (fn value, args []value) {
 	return
 }
 
-// call interprets a call to a function (function, builtin or closure)
-// fn with arguments args, returning its result.
-// callpos is the position of the callsite.
+// call interprets a call to a function (function, builtin or closure).
 func call(i *interpreter, caller *frame, callpos token.Pos, fn value, args []value) value {
 	switch fn := fn.(type) {
 	case *ssa.Function:
 		if fn == nil {
-			panic("call of nil function") // nil of func type
+			panic(targetPanic{i.rtErr("invalid memory address or nil pointer dereference (call of nil func)")})
 		}
 		return callSSA(i, caller, callpos, fn, args, nil)
 	case *closure:
 		return callSSA(i, caller, callpos, fn.Fn, args, fn.Env)
 	case *ssa.Builtin:
-		return callBuiltin(caller, callpos, fn, args)
+		return i.callBuiltin(caller, callpos, fn, args)
 	}
 	panic(fmt.Sprintf("cannot call %T", fn))
 }
 
-func loc(fset *token.FileSet, pos token.Pos) string {
-	if pos == token.NoPos {
-		return ""
-	}
-	return " at " + fset.Position(pos).String()
+func (i *interpreter) callTop(fn *ssa.Function) {
+	call(i, nil, token.NoPos, fn, nil)
 }
 
-// callSSA interprets a call to function fn with arguments args,
-// and lexical environment env, returning its result.
-// callpos is the position of the callsite.
+// callSSA interprets a call to function fn with arguments args and lexical environment env.
 func callSSA(i *interpreter, caller *frame, callpos token.Pos, fn *ssa.Function, args []value, env []value) value {
-	if i.mode&EnableTracing != 0 {
-		fset := fn.Prog.Fset
-		// TODO(adonovan): fix: loc() lies for external functions.
-		fmt.Fprintf(os.Stderr, "Entering %s%s.\n", fn, loc(fset, fn.Pos()))
-		suffix := ""
-		if caller != nil {
-			suffix = ", resuming " + caller.fn.String() + loc(fset, callpos)
-		}
-		defer fmt.Fprintf(os.Stderr, "Leaving %s%s.\n", fn, suffix)
-	}
 	fr := &frame{
 		i:      i,
 		caller: caller, // for panic/recover
@@ -512,101 +532,112 @@ func callSSA(i *interpreter, caller *frame, callpos token.Pos, fn *ssa.Function,
 	}
 	if fn.Parent() == nil {
 		name := fn.String()
+		if ov := i.overrides[name]; ov != nil {
+			return ov(fr, args)
+		}
 		if ext := externals[name]; ext != nil {
-			if i.mode&EnableTracing != 0 {
-				fmt.Fprintln(os.Stderr, "\t(external)")
-			}
 			return ext(fr, args)
 		}
+		if fn.Pkg != nil && fn.Synthetic == "package initializer" {
+			if !i.initAllowed(fn.Pkg) {
+				return nil
+			}
+		}
+		if intr := i.intrinsic(fn); intr != nil {
+			return intr(fr, args)
+		}
 		if fn.Blocks == nil {
-			panic("no code for function: " + name)
+			i.unsupported("no code for function: " + name)
+		}
+		if fn.Pkg != nil && !i.interpretable(fn.Pkg) {
+			i.unsupported("call into unmodelled package: " + name)
 		}
 	}
-
-	// generic function body?
 	if fn.TypeParams().Len() > 0 && len(fn.TypeArgs()) == 0 {
 		panic("interp requires ssa.BuilderMode to include InstantiateGenerics to execute generics")
 	}
-
-	fr.env = make(map[ssa.Value]value)
+	if i.funcsHit != nil {
+		i.funcsHit[fn]++
+	}
+	i.curFrame = fr
+	fr.env = make(map[ssa.Value]value, len(fn.Params)+len(fn.Locals)+8)
 	fr.block = fn.Blocks[0]
 	fr.locals = make([]value, len(fn.Locals))
-	for i, l := range fn.Locals {
-		fr.locals[i] = zero(typeparams.MustDeref(l.Type()))
-		fr.env[l] = &fr.locals[i]
+	for k, l := range fn.Locals {
+		fr.locals[k] = zero(mustDeref(l.Type()))
+		fr.env[l] = &fr.locals[k]
 	}
-	for i, p := range fn.Params {
-		fr.env[p] = args[i]
+	for k, p := range fn.Params {
+		fr.env[p] = args[k]
 	}
-	for i, fv := range fn.FreeVars {
-		fr.env[fv] = env[i]
+	for k, fv := range fn.FreeVars {
+		fr.env[fv] = env[k]
 	}
 	for fr.block != nil {
 		runFrame(fr)
 	}
-	// Destroy the locals to avoid accidental use after return.
-	for i := range fn.Locals {
-		fr.locals[i] = bad{}
-	}
+	i.curFrame = caller
 	return fr.result
 }
 
-// runFrame executes SSA instructions starting at fr.block and
-// continuing until a return, a panic, or a recovered panic.
-//
-// After a panic, runFrame panics.
-//
-// After a normal return, fr.result contains the result of the call
-// and fr.block is nil.
-//
-// A recovered panic in a function without named return parameters
-// (NRPs) becomes a normal return of the zero value of the function's
-// result type.
-//
-// After a recovered panic in a function with NRPs, fr.result is
-// undefined and fr.block contains the block at which to resume
-// control.
+// runFrame executes SSA instructions starting at fr.block and continuing until a return,
+// a panic, or a recovered panic.
 func runFrame(fr *frame) {
 	defer func() {
 		if fr.block == nil {
 			return // normal return
 		}
-		if fr.i.mode&DisableRecover != 0 {
-			return // let interpreter crash
+		if fr.stopped {
+			return
+		}
+		r := recover()
+		if r == nil {
+			return
+		}
+		if isInternal(r) {
+			panic(r)
+		}
+		// classify host panics: explicit target panics keep their value; anything else is
+		// an engine problem, never a behaviour of the code under test.
+		switch p := r.(type) {
+		case targetPanic:
+		case runtime.Error:
+			if fr.i.Debug {
+				panic(r)
+			}
+			panic(pathAbort{kind: abUnsupported, msg: "engine error: " + p.Error() + fr.i.where()})
+		default:
+			if fr.i.Debug {
+				panic(r)
+			}
+			panic(pathAbort{kind: abUnsupported, msg: fmt.Sprintf("engine error: %v%s", r, fr.i.where())})
+		}
+		if fr.i.specDepth > 0 {
+			panic(pathAbort{kind: abMerge, msg: "panic inside a merged region"})
 		}
 		fr.panicking = true
-		fr.panic = recover()
-		if fr.i.mode&EnableTracing != 0 {
-			fmt.Fprintf(os.Stderr, "Panicking: %T %v.\n", fr.panic, fr.panic)
-		}
+		fr.panic = r
 		fr.runDefers()
 		fr.block = fr.fn.Recover
 	}()
 
 	for {
-		if fr.i.mode&EnableTracing != 0 {
-			fmt.Fprintf(os.Stderr, ".%s:\n", fr.block)
-		}
-
 		nonPhis := executePhis(fr)
 		for _, instr := range nonPhis {
-			if fr.i.mode&EnableTracing != 0 {
-				if v, ok := instr.(ssa.Value); ok {
-					fmt.Fprintln(os.Stderr, "\t", v.Name(), "=", instr)
-				} else {
-					fmt.Fprintln(os.Stderr, "\t", instr)
-				}
-			}
 			if visitInstr(fr, instr) == kReturn {
 				return
 			}
 			// Inv: kNext (continue) or kJump (last instr)
 		}
+		if fr.stopAt != nil && fr.block == fr.stopAt {
+			fr.stopped = true
+			return
+		}
 	}
 }
 
-// executePhis executes the phi-nodes at the start of the current
-// block and returns the non-phi instructions.
+// executePhis executes the phi-nodes at the start of the current block and returns the
+// non-phi instructions.
 func executePhis(fr *frame) []ssa.Instruction {
 	firstNonPhi := -1
 	for i, instr := range fr.block.Instrs {
@@ -615,22 +646,17 @@ func executePhis(fr *frame) []ssa.Instruction {
 			break
 		}
 	}
-	// Inv: 0 <= firstNonPhi; every block contains a non-phi.
-
 	nonPhis := fr.block.Instrs[firstNonPhi:]
+	if fr.skipPhis {
+		fr.skipPhis = false
+		return nonPhis
+	}
 	if firstNonPhi > 0 {
 		phis := fr.block.Instrs[:firstNonPhi]
-		// Execute parallel assignment of phis.
-		//
-		// See "the swap problem" in Briggs et al's "Practical Improvements
-		// to the Construction and Destruction of SSA Form" for discussion.
 		predIndex := slices.Index(fr.block.Preds, fr.prevBlock)
 		fr.phitemps = fr.phitemps[:0]
 		for _, phi := range phis {
 			phi := phi.(*ssa.Phi)
-			if fr.i.mode&EnableTracing != 0 {
-				fmt.Fprintln(os.Stderr, "\t", phi.Name(), "=", phi)
-			}
 			fr.phitemps = append(fr.phitemps, fr.get(phi.Edges[predIndex]))
 		}
 		for i, phi := range phis {
@@ -642,28 +668,14 @@ func executePhis(fr *frame) []ssa.Instruction {
 
 // doRecover implements the recover() built-in.
 func doRecover(caller *frame) value {
-	// recover() must be exactly one level beneath the deferred
-	// function (two levels beneath the panicking function) to
-	// have any effect.  Thus we ignore both "defer recover()" and
-	// "defer f() -> g() -> recover()".
-	if caller.i.mode&DisableRecover == 0 &&
-		caller != nil && !caller.panicking &&
+	if caller != nil && !caller.panicking &&
 		caller.caller != nil && caller.caller.panicking {
 		caller.caller.panicking = false
 		p := caller.caller.panic
 		caller.caller.panic = nil
-
-		// TODO(adonovan): support runtime.Goexit.
 		switch p := p.(type) {
 		case targetPanic:
-			// The target program explicitly called panic().
 			return p.v
-		case runtime.Error:
-			// The interpreter encountered a runtime error.
-			return iface{caller.i.runtimeErrorString, p.Error()}
-		case string:
-			// The interpreter explicitly called panic().
-			return iface{caller.i.runtimeErrorString, p}
 		default:
 			panic(fmt.Sprintf("unexpected panic type %T in target call to recover()", p))
 		}
@@ -671,85 +683,48 @@ func doRecover(caller *frame) value {
 	return iface{}
 }
 
-// Interpret interprets the Go program whose main package is mainpkg.
-// mode specifies various interpreter options.  filename and args are
-// the initial values of os.Args for the target program.  sizes is the
-// effective type-sizing function for this program.
-//
-// Interpret returns the exit code of the program: 2 for panic (like
-// gc does), or the argument to os.Exit for normal termination.
-//
-// The SSA program must include the "runtime" package.
-//
-// Type parameterized functions must have been built with
-// InstantiateGenerics in the ssa.BuilderMode to be interpreted.
-func Interpret(mainpkg *ssa.Package, mode Mode, sizes types.Sizes, filename string, args []string) (exitCode int) {
-	i := &interpreter{
-		prog:       mainpkg.Prog,
-		globals:    make(map[*ssa.Global]*value),
-		mode:       mode,
-		sizes:      sizes,
-		goroutines: 1,
-	}
-	runtimePkg := i.prog.ImportedPackage("runtime")
-	if runtimePkg == nil {
-		panic("ssa.Program doesn't include runtime package")
-	}
-	i.runtimeErrorString = runtimePkg.Type("errorString").Object().Type()
+// ---------------------------------------------------------------- package initialisation policy
 
-	initReflect(i)
+// initWhitelist lists package path prefixes whose initialisers are executed and whose
+// functions are interpreted from source.
+var initPrefixes = []string{
+	"github.com/evolbioinfo/goalign",
+	"github.com/armon/go-radix",
+	"gonum.org/v1/gonum/mat", "gonum.org/v1/gonum/blas", "gonum.org/v1/gonum/floats", "gonum.org/v1/gonum/internal",
+	"gonum.org/v1/gonum/lapack",
+}
 
-	i.osArgs = append(i.osArgs, filename)
-	for _, arg := range args {
-		i.osArgs = append(i.osArgs, arg)
+var initExact = map[string]bool{
+	"io": true, "bufio": true, "bytes": true, "strings": true, "strconv": true, "unicode": true, "unicode/utf8": true,
+	"unicode/utf16": true, "sort": true, "slices": true, "math": true, "math/bits": true, "math/cmplx": true,
+	"regexp": true, "regexp/syntax": true, "errors": true, "cmp": true, "container/heap": true, "container/list": true,
+	"internal/stringslite": true, "internal/bytealg": true, "internal/itoa": true, "iter": true, "maps": true,
+}
+
+var neverInit = map[string]bool{
+	"errors": true, "internal/bytealg": true,
+}
+
+func pkgListed(path string) bool {
+	if initExact[path] {
+		return true
 	}
-
-	for _, pkg := range i.prog.AllPackages() {
-		// Initialize global storage.
-		for _, m := range pkg.Members {
-			switch v := m.(type) {
-			case *ssa.Global:
-				cell := zero(typeparams.MustDeref(v.Type()))
-				i.globals[v] = &cell
-			}
+	for _, p := range initPrefixes {
+		if path == p || strings.HasPrefix(path, p+"/") {
+			return true
 		}
 	}
+	return false
+}
 
-	// Top-level error handler.
-	exitCode = 2
-	defer func() {
-		if exitCode != 2 || i.mode&DisableRecover != 0 {
-			return
-		}
-		switch p := recover().(type) {
-		case exitPanic:
-			exitCode = int(p)
-			return
-		case targetPanic:
-			fmt.Fprintln(os.Stderr, "panic:", toString(p.v))
-		case runtime.Error:
-			fmt.Fprintln(os.Stderr, "panic:", p.Error())
-		case string:
-			fmt.Fprintln(os.Stderr, "panic:", p)
-		default:
-			fmt.Fprintf(os.Stderr, "panic: unexpected type: %T: %v\n", p, p)
-		}
-
-		// TODO(adonovan): dump panicking interpreter goroutine?
-		// buf := make([]byte, 0x10000)
-		// runtime.Stack(buf, false)
-		// fmt.Fprintln(os.Stderr, string(buf))
-		// (Or dump panicking target goroutine?)
-	}()
-
-	// Run!
-	call(i, nil, token.NoPos, mainpkg.Func("init"), nil)
-	if mainFn := mainpkg.Func("main"); mainFn != nil {
-		call(i, nil, token.NoPos, mainFn, nil)
-		exitCode = 0
-	} else {
-		fmt.Fprintln(os.Stderr, "No main function.")
-		exitCode = 1
+func (i *interpreter) initAllowed(p *ssa.Package) bool {
+	path := p.Pkg.Path()
+	if neverInit[path] {
+		return false
 	}
-	return
+	return pkgListed(path)
+}
+
+func (i *interpreter) interpretable(p *ssa.Package) bool {
+	return pkgListed(p.Pkg.Path())
 }
